@@ -225,7 +225,10 @@ def run(c):
     import itertools
     for walk in itertools.chain(curated, core.random_walks(r.graph, rng, 40 if quick else 800, max_len=40,
                                                            cover_edges=not quick, cover_factor=3)):
-        exc = Exception if n % 2 == 0 else D.R.__dict__.get('BaseFaultX', KeyboardInterrupt) if False else Exception
+        # what a failing plugin raises: an Exception, or - every other walk - what a plugin gets when it hands work to the
+        # agent while delivery is already closed (deep.task.IllegalStateException, which is NOT an Exception)
+        from deep.task import IllegalStateException
+        exc = Exception if n % 2 == 0 else IllegalStateException
         res = replay_walk(c, walk, wd, exc)
         n += 1
         c.traces_validated += 1
